@@ -29,7 +29,7 @@ ASSUMPTIONS = [
 ]
 REAL = ["cdd (working tree) in real fresh interpreters, one per history", "CPython hash randomisation (PYTHONHASHSEED)"]
 STUBBED = ["nothing in the children; the parent only schedules which interpreter runs which history"]
-TASK_TIMEOUT = {"quick": 900, "thorough": 3000}
+TASK_TIMEOUT = {"quick": 900, "thorough": 5400}
 STYLES = ("rest", "google", "numpydoc")
 
 
